@@ -65,6 +65,9 @@ def main() -> None:
         elif c["flavour"] == "lambda":
             src = ""
             cond = "lambda {}: is_bad({})".format(", ".join(cond_params), names[0])
+        elif c["flavour"] == "quant2":
+            src = ""
+            cond = "lambda a, b: all(p + q + r < 0 for _, p in a for _, q in b for r, _ in a)"
         else:  # quantifier over the first argument
             src = ""
             cond = "lambda {}: all(is_bad(e) for e in {})".format(", ".join(cond_params), names[0])
@@ -86,6 +89,8 @@ def main() -> None:
         linecache.cache[fname] = (len(src), None, src.splitlines(True), fname)
         exec(compile(src, fname, "exec"), ns)
         values = {a["name"]: make_value(a["kind"], a["size"]) for a in c["args"]}
+        if c["flavour"] == "quant2":
+            values = {"a": [(7, 1)], "b": [(8, 3)]}
         if c["flavour"] == "quant":
             # the quantifier ranges over a LIST (deterministic order) whose single element is the interesting value
             values[names[0]] = [values[names[0]]]
